@@ -30,4 +30,11 @@ def r06_parser(ctx):
     parsershape.check_tokenizer_feed(ctx, 'R06.5')
 
 
-RULES = [('R06-transitions', r06_transitions), ('R06.5', r06_parser)]
+def r06_decode(ctx):
+    """The message recognised is exactly M: a token becomes a message that encodes back to the token (decoder layouts, shared
+    with C01 R01.3 / C04 R04.6)."""
+    from . import c01
+    ctx.borrow(c01.r01_3, 'R06.6')
+
+
+RULES = [('R06.6', r06_decode), ('R06-transitions', r06_transitions), ('R06.5', r06_parser)]
